@@ -1356,9 +1356,11 @@ dialer_timer_start_locked(nni_dialer *d)
 
 	back_off = d->d_currtime;
 	if (d->d_maxrtime > 0) {
-		d->d_currtime *= 2;
-		if (d->d_currtime > d->d_maxrtime) {
+		// (compared before doubling, which could overflow)
+		if (d->d_currtime > d->d_maxrtime / 2) {
 			d->d_currtime = d->d_maxrtime;
+		} else {
+			d->d_currtime *= 2;
 		}
 	}
 
